@@ -317,8 +317,12 @@ var nearRepertoire = map[family][]rune{
 	famLatin1: []rune("\u0080\u0081\u008d\u0090\u009d\u009f\u00a0\u00ff\u0100\u0152\u0153\u0160\u0178\u017d\u0192\u02c6\u2013\u2022\u20ac\u2122\u2260\ufffd"),
 }
 
+// lsBuilder: the batch builder value of the current run (see splitAndSend).
+var lsBuilder *protocol.BatchDataCodingEncoder
+
 func runLongSMS(r *core.Run) {
 	c := r.C
+	lsBuilder = nil
 	ctx := context.Background()
 	nMsg := 1 + c.Size(3, 1)
 	if c.Prob(1, 10) {
@@ -550,7 +554,16 @@ func splitAndSend(r *core.Run, ctx context.Context, m *lsMsg, air *[]airPart) bo
 				pr, dc = protocol.SMPP, datacoding.SMPPDataCoding(m.req)
 			}
 			var a datacoding.ProtocolDataCoding
-			parts, a, err = protocol.NewBatchDataCodingEncoder().Protocol(pr).Content(m.text, m.ref).DataCodings([]datacoding.ProtocolDataCoding{dc}).Build(ctx)
+			// one builder value per run serves every message sent through the batch entry point; half of the time
+			// it has just built the same text under the neighbouring reference
+			if lsBuilder == nil {
+				lsBuilder = protocol.NewBatchDataCodingEncoder()
+			}
+			lsBuilder.Protocol(pr).DataCodings([]datacoding.ProtocolDataCoding{dc})
+			if m.id%2 == 1 {
+				_, _, _ = lsBuilder.Content(m.text, m.ref+1).Build(ctx)
+			}
+			parts, a, err = lsBuilder.Content(m.text, m.ref).Build(ctx)
 			actual = reflectInt(a)
 			return
 		}
